@@ -642,7 +642,9 @@ class DestHandler:
         self._reset_internal(False)
 
     def _handle_fd_without_previous_metadata(self, first_pdu: bool, fd_pdu: FileDataPdu) -> None:
-        self._params.fp.progress = fd_pdu.offset + len(fd_pdu.file_data)
+        self._params.fp.progress = max(
+            self._params.fp.progress, fd_pdu.offset + len(fd_pdu.file_data)
+        )
         if len(fd_pdu.file_data) > 0:
             start = fd_pdu.offset
             if first_pdu:
